@@ -43,6 +43,7 @@ void h_from_ctor(void)
   /* the constructor establishes the state the hand-written precondition of frame_dfcc describes */
   __CPROVER_assert(G_wheels_n == W._numWheels && W._numWheels >= 1, "ctor: one WheelLevel per level, at least one level");
   __CPROVER_assert(IS_POW2(W._ticksPerWheel) && W._tickMask == W._ticksPerWheel - 1 && W._tickDuration > 0, "ctor: ticksPerWheel is a power of two, mask = ticksPerWheel - 1");
+  GL = nondet_size_t();                                  /* witness level: arbitrary */
   __CPROVER_assume(GL < W._numWheels);
   TimingWheel W0 = W; TimerEntry e0 = e; size_t curGL = W._wheels[GL].currentTick;
 
